@@ -2,6 +2,6 @@
 # MANIFEST.setup_cmd: build the Lean package offline (models, proofs, driver).
 set -e
 cd "$(dirname "$0")"
-/venv/bin/python -c "import sys; sys.path.insert(0,'.'); from harness.common import translator; translator.regenerate(); translator.regenerate_guard(); from harness.common import pykern; pykern.regenerate(); from harness.common import cfgprog; cfgprog.regenerate(); from harness.common import mergeprog; mergeprog.regenerate(); from harness.common import addprog; addprog.regenerate(); from harness.common import locprog; locprog.regenerate(); from harness.common import fidprog; fidprog.regenerate(); from harness.common import dispprog; dispprog.regenerate()"
+/venv/bin/python -c "import sys; sys.path.insert(0,'.'); from harness.common import translator; translator.regenerate(); translator.regenerate_guard(); from harness.common import pykern; pykern.regenerate(); from harness.common import cfgprog; cfgprog.regenerate(); from harness.common import mergeprog; mergeprog.regenerate(); from harness.common import addprog; addprog.regenerate(); from harness.common import locprog; locprog.regenerate(); from harness.common import fidprog; fidprog.regenerate(); from harness.common import dispprog; dispprog.regenerate(); from harness.common import gtprog; gtprog.regenerate()"
 cd lean
 lake build
